@@ -1,7 +1,8 @@
 use crate::games::theship::types::Response;
 use crate::protocols::types::TimeoutSettings;
 use crate::protocols::valve;
-use crate::protocols::valve::Engine;
+use crate::protocols::types::GatherToggle;
+use crate::protocols::valve::{Engine, GatheringSettings};
 use crate::GDResult;
 use std::net::{IpAddr, SocketAddr};
 
@@ -12,10 +13,16 @@ pub fn query_with_timeout(
     port: Option<u16>,
     timeout_settings: Option<TimeoutSettings>,
 ) -> GDResult<Response> {
+    // The response type needs both players and rules, gather them as required so that a
+    // failure to get them is reported as what it was (not as a bad packet afterwards).
     let valve_response = valve::query(
         &SocketAddr::new(*address, port.unwrap_or(27015)),
         Engine::new(2400),
-        None,
+        Some(GatheringSettings {
+            players: GatherToggle::Enforce,
+            rules: GatherToggle::Enforce,
+            check_app_id: true,
+        }),
         timeout_settings,
     )?;
 
